@@ -333,7 +333,7 @@ pub fn run_keygen(seed: u64, proc_tag: u64, unseeded: usize, out: &mut Vec<Value
         let n = r.gen_range(1..80);
         seeds.push((0..n).map(|_| r.gen()).collect());
     }
-    let rln = Arc::new(crate::rln_exec::new_rln(20, &Value::Null).unwrap());
+    let rln = Arc::new(Shared(crate::rln_exec::new_rln(20, &Value::Null).unwrap()));
     let evs: Arc<Mutex<Vec<(Value, Vec<Fr>)>>> = Arc::new(Mutex::new(Vec::new()));
     let record = |evs: &Arc<Mutex<Vec<(Value, Vec<Fr>)>>>, entry: &str, seed: Option<&Vec<u8>>, ext: bool, thr: usize, vals: Result<Vec<Fr>, String>, raw: Option<Vec<u8>>| {
         let mut ev = json!({"t": "keygen", "entry": entry, "ext": ext, "thr": thr, "proc": proc_tag, "seeded": seed.is_some()});
